@@ -706,12 +706,17 @@ func (g *genCtx) genClause(c *Contract, cl *Clause, fs *fnSyntax, si *sigInfo) e
 		}()
 		if cl.Kind == "preserved" {
 			// n T :: guard :: expr
-			ps := strings.SplitN(cl.Text, "::", 3)
-			if len(ps) != 3 {
+			// optional fourth part: the type of expr (default int; needs a generic verif_preserved)
+			ps := strings.SplitN(cl.Text, "::", 4)
+			if len(ps) < 3 {
 				return
 			}
+			rt := "int"
+			if len(ps) == 4 {
+				rt = strings.TrimSpace(ps[3])
+			}
 			b := strings.TrimSpace(ps[0])
-			goExpr = fmt.Sprintf("verif_preserved(func(%s) bool { return %s }, func(%s) int { return %s })", b, rewriteSpec(ps[1]), b, rewriteSpec(ps[2]))
+			goExpr = fmt.Sprintf("verif_preserved(func(%s) bool { return %s }, func(%s) %s { return %s })", b, rewriteSpec(ps[1]), b, rt, rewriteSpec(ps[2]))
 			return
 		}
 		goExpr = rewriteSpec(cl.Text)
